@@ -21,8 +21,12 @@ open Paloma.Abi Paloma.SignBytes Paloma.Attest
          a parameter list `Pack` refuses the arguments for.  Kept across `chain`, reset by `reset`.)
   rm <id>                                                                  → ok
   attestev <id> <shares addr:share,…> <totalShares> <evidence>…   (store order; one token each)
-        evidence: <addr>;tx;<hash>;<status|->;<data>;<deployLog 0|1>;<receiptVariant>[;<txEncoding>[;<sender|->]]
-                    (txEncoding: 0 = canonical serialization (default), n = EIP-4844 network form with
+        evidence: <addr>;tx;<hash>;<status>;<data>;<deployLog 0|1>;<receiptVariant>[;<txEncoding>[;<sender|->]]
+                    (status = the FIRST FIELD of the serialized receipt: `1` = the byte 0x01 (success code),
+                     `0` = the empty string (failure code), `fx<hex>` = these bytes — 32 of them: the
+                     post-transaction state root of a receipt that carries NO status code —, `-` = the
+                     proof has no serialized receipt.  The model decodes it (`receiptStatusOf`);
+                     txEncoding: 0 = canonical serialization (default), n = EIP-4844 network form with
                      sidecar n; same <hash> = same remote transaction whatever the encoding;
                      sender: the account recovered from the transaction's signature as a number, `-`
                      (default) = the transaction carries no valid signature.  The model's router does
@@ -128,36 +132,36 @@ def resClass (r : Res) : String :=
   | .notVerified => "notverified"
   | .alreadyProcessed | .receiptErr | .postErr | .encodeErr => "err"
 
+/-- the status token of a transaction proof: what the serialized receipt's FIRST FIELD is.
+    `-` no serialized receipt; `1` the byte 0x01; `0` the empty string; `fx<hex>` these raw bytes (a
+    32-byte state root of a receipt without status code, or anything else).  Status and post-state are
+    decoded from the field by the model (`TxProof.ofReceiptField` / `receiptStatusOf`), never supplied. -/
+def parseReceiptField? (st : String) : Option (Option Bytes) :=
+  if st == "-" then some none
+  else if st == "1" then some (some [1])
+  else if st == "0" then some (some [])
+  else match st.toList with
+    | 'f' :: r => (Driver.C05.parseBytes? (String.ofList r)).map some
+    | _ => none
+
+def mkProof? (h st data log var enc snd : String) : Option TxProof := do
+  let snd ← (if snd == "-" then some none else (parseNat? snd).map some)
+  pure (TxProof.ofReceiptField (← parseNat? h) (← Driver.C05.parseBytes? data) (← parseReceiptField? st)
+          (← parseBool? log) (← parseNat? var) (← parseNat? enc) snd)
+
 def parseWinner? (args : List String) : Option Winner :=
   match args with
   | ["none"] => some .none
   | ["err"] => some .errorProof
   | ["other"] => some .other
-  | ["tx", h, st, data, log] => do
-    let st ← (if st == "-" then some none else (parseNat? st).map some)
-    pure (.tx { hash := ← parseNat? h, data := ← Driver.C05.parseBytes? data, receipt := st,
-                deployLog := ← parseBool? log })
+  | ["tx", h, st, data, log] => do pure (.tx (← mkProof? h st data log "0" "0" "-"))
   | _ => none
 
 def parseEvidence? (s : String) : Option EvidenceV :=
   match s.splitOn ";" with
-  | [a, "tx", h, st, data, log, var] => do
-    let st ← (if st == "-" then some none else (parseNat? st).map some)
-    let p : TxProof := { hash := ← parseNat? h, data := ← Driver.C05.parseBytes? data, receipt := st,
-                         deployLog := ← parseBool? log, variant := ← parseNat? var }
-    pure (← parseNat? a, .tx p)
-  | [a, "tx", h, st, data, log, var, enc] => do
-    let st ← (if st == "-" then some none else (parseNat? st).map some)
-    let p : TxProof := { hash := ← parseNat? h, data := ← Driver.C05.parseBytes? data, receipt := st,
-                         deployLog := ← parseBool? log, variant := ← parseNat? var, enc := ← parseNat? enc }
-    pure (← parseNat? a, .tx p)
-  | [a, "tx", h, st, data, log, var, enc, snd] => do
-    let st ← (if st == "-" then some none else (parseNat? st).map some)
-    let snd ← (if snd == "-" then some none else (parseNat? snd).map some)
-    let p : TxProof := { hash := ← parseNat? h, data := ← Driver.C05.parseBytes? data, receipt := st,
-                         deployLog := ← parseBool? log, variant := ← parseNat? var, enc := ← parseNat? enc,
-                         sender := snd }
-    pure (← parseNat? a, .tx p)
+  | [a, "tx", h, st, data, log, var] => do pure (← parseNat? a, .tx (← mkProof? h st data log var "0" "-"))
+  | [a, "tx", h, st, data, log, var, enc] => do pure (← parseNat? a, .tx (← mkProof? h st data log var enc "-"))
+  | [a, "tx", h, st, data, log, var, enc, snd] => do pure (← parseNat? a, .tx (← mkProof? h st data log var enc snd))
   | [a, "err", n] => do pure (← parseNat? a, .errorProof (← parseNat? n))
   | [a, "other", n] => do pure (← parseNat? a, .other (← parseNat? n))
   | _ => none
